@@ -41,6 +41,14 @@ def run(tier, seed):
     s2 = vh(["replay", "rtrconn", write_ndjson(os.path.join(wd, "srvconn.ndjson"), r.replay)], timeout=3000)
     c.add_harness(s2, "the same against the real Server on a controlled socket: every query is read back as what was written (its answer says so)")
 
+    # ... and the client's readers of what a cache sends (first reply, payload PDUs, End of Data; version checks, downgrade after
+    # an Unsupported Protocol Version error): one driven session per version pairing against C06's session model
+    import checks.c06 as c06
+    for k, (ci, sm, cs_, w) in enumerate([(2, 1, "stale", 1), (1, 2, "none", 1)]):
+        tc = c06.trace_cfg(wd, f"session-trace{k}.cfg", ci, sm, w, cs_)
+        vlib.trace_rounds(c, "Trace_RtrSession", "rtrsession", [seed * 100 + 50 + k], 60 if quick else 300, None, cfg=tc,
+                          extra_args=["--cli-init", ci, "--srv-max", sm, "--window", w, "--cli-start", cs_])
+
     def corrupt(cs):
         for x in cs:
             if x["op"] == "read" and x["verdict"] == "ok":
